@@ -2,7 +2,7 @@ use crate::contract::IBC_TIMEOUT;
 use crate::error::{ContractError, ContractResult};
 use crate::helpers::{
     compute_mint_amount, compute_unbond_amount, derive_intermediate_sender, get_rates,
-    paginate_map, validate_address, validate_addresses,
+    paginate_map, validate_address, validate_addresses, validate_period,
 };
 use crate::oracle::Oracle;
 use crate::state::{
@@ -814,7 +814,7 @@ pub fn update_config(
     }
 
     if let Some(batch_period) = batch_period {
-        config.batch_period = batch_period;
+        config.batch_period = validate_period(batch_period)?;
     }
 
     CONFIG.save(deps.storage, &config)?;
